@@ -6,6 +6,7 @@ use std::panic::catch_unwind;
 
 mod statuslist;
 mod jws;
+mod cred;
 mod did;
 mod iota;
 
@@ -77,6 +78,8 @@ fn main() {
     "jws_binding" => jws::binding(&cex),
     "state_metadata" => iota::state_metadata(&cex),
     "did_syntax" => did::syntax(&cex),
+    "credential_validation" => cred::credential_validation(&cex),
+    "presentation_validation" => cred::presentation_validation(&cex),
     "kani" => kani_replay(&cex),
     "selftest" => selftest(),
     _ => Err(format!("unknown scenario {scenario}")),
